@@ -515,6 +515,7 @@ class Interp:
         if self.sign(T) == -1:
             raise Broken("D-COV: negative trip count")
         self.trips[hdr] = T
+        strided = []
         exiting = L["exiting"][0] if not two else hdr
         second = None if not two else ([x for x in L["exiting"] if x != hdr] + [None])[0]
         between = set() if not two else self._test_blocks(L)
@@ -558,7 +559,9 @@ class Interp:
                     if not uncond:
                         raise Broken("D-COV: conditional store inside the loop at %s" % I.where)
                     if st != w:
-                        raise Broken("D-COV: store stride %d != width %d at %s" % (st, w, I.where))
+                        # one of several stores per iteration (an unrolled loop: 8 words per round): decided as a group below
+                        strided.append((self._rel(S), st, w, I, execs))
+                        continue
                     lo = self._rel(S)
                     self.intervals.append((lo, lo.add(execs.scale(w)), w, I.id, "loop"))
                 elif I.op == "call" and not I.is_dbg() and not I.is_lifetime():
@@ -599,6 +602,32 @@ class Interp:
                     else:
                         # strided single bytes (e.g. byte k of each word): record the hull; exactness is then not claimed
                         self.intervals.append((lo, lo.add(T.scale(st.const())).add(LF.c(w - st.const())), w, I.id, "loop-load-strided"))
+        if strided:
+            # the stores of one iteration must be adjacent and together as wide as the stride: then the iterations tile a contiguous range
+            sts = {x[1] for x in strided}
+            exs = {repr(x[4]) for x in strided}
+            if len(sts) != 1 or len(exs) != 1:
+                raise Broken("D-COV: stores with different strides in one loop at %s" % strided[0][3].where)
+            st = strided[0][1]
+            base = strided[0][0]
+            offs = []
+            for (lo, _st, w, I, _e) in strided:
+                d = lo.add(base, -1).const()
+                if d is None:
+                    raise Broken("D-COV: stores of one iteration at unrelated addresses at %s" % I.where)
+                offs.append((d, w, I, lo))
+            offs.sort(key=lambda x: x[0])
+            pos = offs[0][0]
+            for d, w, I, lo in offs:
+                if d != pos:
+                    raise Broken("D-COV: store stride %d with stores that are not adjacent (gap or overlap at offset %d) at %s" % (st, d, I.where))
+                pos += w
+            if pos - offs[0][0] != st or st <= 0:
+                raise Broken("D-COV: store stride %d != %d bytes stored per iteration at %s" % (st, pos - offs[0][0], offs[0][2].where))
+            glo = offs[0][3]
+            ghi = glo.add(strided[0][4].scale(st))
+            for d, w, I, lo in offs:
+                self.intervals.append((glo, ghi, w, I.id, ("loop-group", lo)))
         # exit values of the header phis: start + step * (number of completed iterations)
         for iid in f.blocks[hdr].insts:
             I = f.insts[iid]
@@ -884,7 +913,18 @@ def tiling(intervals, length, interp, verb="written", only_over=False):
 
 
 def coverage(f, buf_arg, len_arg, fixed_args=None, W=8, Q0=8, mode="write", field_consts=None, only_over=False):
-    """analyse all classes; returns (n classes, first failing (class, why) or None, per-class store ids)"""
+    """analyse all classes; returns (n classes, first failing (class, why) or None, per-class store ids).  Classes are residues modulo W
+    (address and length); a loop that consumes more than W bytes per round (an unrolled word loop) has no expressible trip count there:
+    the analysis is then repeated with residues modulo 32"""
+    try:
+        return _coverage(f, buf_arg, len_arg, fixed_args, W, Q0, mode, field_consts, only_over)
+    except Broken as e:
+        if W >= 32 or "trip count" not in str(e):
+            raise
+        return _coverage(f, buf_arg, len_arg, fixed_args, 32, 2, mode, field_consts, only_over)
+
+
+def _coverage(f, buf_arg, len_arg, fixed_args, W, Q0, mode, field_consts, only_over):
     bad = None
     n = 0
     used = set()
@@ -903,6 +943,15 @@ def coverage(f, buf_arg, len_arg, fixed_args=None, W=8, Q0=8, mode="write", fiel
 def aligned_accesses(f, buf_arg, len_arg, fixed_args=None, W=8, Q0=8):
     """instructions accessing the buffer with a width w > 1 whose address is a multiple of w in every (alignment, length) class in which
     they execute -> set of instruction ids shown aligned, set shown misaligned in some class (with the class)"""
+    try:
+        return _aligned_accesses(f, buf_arg, len_arg, fixed_args, W, Q0)
+    except Broken as e:
+        if W >= 32 or "trip count" not in str(e):
+            raise
+        return _aligned_accesses(f, buf_arg, len_arg, fixed_args, 32, 2)
+
+
+def _aligned_accesses(f, buf_arg, len_arg, fixed_args, W, Q0):
     good, badm = set(), {}
     for mode in ("write", "read"):
         for cls in classes(W, Q0):
@@ -914,6 +963,8 @@ def aligned_accesses(f, buf_arg, len_arg, fixed_args=None, W=8, Q0=8):
                 ext = it.sign(hi.add(lo, -1))
                 if ext == 0:
                     continue            # not executed in this class
+                if isinstance(kind, tuple):
+                    lo = kind[1]            # one store of a group: its own first address
                 ok = ext is not None and all(c % w == 0 for s_, c in lo.items() if s_ != 1) and (cls.a + lo.get(1, 0)) % w == 0
                 if ok:
                     good.add(iid)
